@@ -290,3 +290,90 @@ example : wcBodies ⟨4, 1, "  ".toList⟩ "\rx\t  \ty".toList
           = ["  x".toList, "      y".toList] := by decide
 
 end Shroud.Lines
+
+namespace Shroud.Lines
+
+/-! ### `write_lines`: the model equals the documented directive table, for every subline -/
+
+/-- the text a subline contributes according to the docstring of `write_lines`:
+    `#…` verbatim, `@text` → `text`, `^text` → `text`, `+text[-]` → `text`,
+    `[-]*text[+]` → `text` -/
+def docBody (s : List Char) : List Char :=
+  match s with
+  | [] => []
+  | c :: cs =>
+    if c = '#' then s
+    else if c = '@' then cs
+    else if c = '^' then cs
+    else if c = '+' then (if s.getLast? = some '-' then cs.dropLast else cs)
+    else
+      let r := s.dropWhile (· = '-')
+      if r.getLast? = some '+' then r.dropLast else r
+
+/-- indentation used for the subline and indentation afterwards -/
+def docIndent (i : Int) (s : List Char) : Int × Int :=
+  match s with
+  | [] => (i, i)
+  | c :: _ =>
+    if c = '#' ∨ c = '@' ∨ c = '^' then (i, i)
+    else if c = '+' then (i + 1, if s.getLast? = some '-' then i else i + 1)
+    else
+      let n : Int := (s.takeWhile (· = '-')).length
+      let r := s.dropWhile (· = '-')
+      (i - n, if r.getLast? = some '+' then i - n + 1 else i - n)
+
+/-- is the subline written raw (no wrapping, no indentation)? -/
+def docRaw (s : List Char) : Bool :=
+  match s with
+  | [] => true
+  | c :: _ => c = '#' || c = '^'
+
+theorem dropDashes_eq (s : List Char) (i : Int) :
+    dropDashes s i = (s.dropWhile (· = '-'), i - ((s.takeWhile (· = '-')).length : Int)) := by
+  induction s generalizing i with
+  | nil => simp [dropDashes]
+  | cons c cs ih =>
+    simp only [dropDashes]
+    by_cases h : c = '-'
+    · subst h
+      simp only [if_true, ih, List.dropWhile_cons, List.takeWhile_cons, decide_true, if_true, List.length_cons]
+      congr 1
+      simp only [Int.natCast_add, Int.natCast_one]
+      omega
+    · simp [h]
+
+/-- **(5) directives steer layout only**: for every subline and indentation
+    state, `write_lines` writes the documented body – raw for `#`/`^` lines and
+    empty lines, otherwise through `write_continue` at the documented
+    indentation – and leaves the documented indentation state.  No directive
+    character reaches the output and no other character is removed. -/
+theorem wl_subline_spec (linelen : Nat) (spaces cont : List Char) (i : Int) (s : List Char) :
+    subline linelen spaces cont i s =
+      .ok ⟨if docRaw s then [docBody s]
+           else render cont (wcBodies { linelen, indent := (docIndent i s).1, spaces } (docBody s)),
+           (docIndent i s).2⟩ := by
+  cases s with
+  | nil => simp [subline, docRaw, docBody, docIndent]
+  | cons c cs =>
+    by_cases h1 : c = '#'
+    · subst h1; simp [subline, docRaw, docBody, docIndent]
+    by_cases h2 : c = '@'
+    · subst h2; simp [subline, docRaw, docBody, docIndent, wcAt, writeContinue]
+    by_cases h3 : c = '^'
+    · subst h3; simp [subline, docRaw, docBody, docIndent]
+    by_cases h4 : c = '+'
+    · subst h4
+      by_cases hl : ('+' :: cs).getLast? = some '-'
+      · simp [subline, docRaw, docBody, docIndent, wcAt, writeContinue, hl]
+      · simp [subline, docRaw, docBody, docIndent, wcAt, writeContinue, hl]
+    · have hraw : docRaw (c :: cs) = false := by simp [docRaw, h1, h3]
+      simp only [subline, h1, h2, h3, h4, if_false, dropDashes_eq, hraw, Bool.false_eq_true,
+        docBody, docIndent, or_self, wcAt, writeContinue]
+      by_cases hl : ((c :: cs).dropWhile (· = '-')).getLast? = some '+'
+      · simp [hl]
+      · simp [hl]
+
+example : docBody "@-x".toList = "-x".toList ∧ docBody "--y+".toList = "y".toList ∧
+    docBody "+z-".toList = "z".toList ∧ docIndent 3 "--y+".toList = (1, 2) := by decide
+
+end Shroud.Lines
